@@ -251,7 +251,8 @@ def b_lattice_arg(ch):
 
 def b_importance(ch):
     ncells = 4
-    fault = ch.choose('fault', ['none', 'imp:p-short', 'imp:p-long', 'imp:n-short-vs-p', 'three-cards'], free=True)
+    fault = ch.choose('fault', ['none', 'imp:p-short', 'imp:p-long', 'imp:n-short-vs-p', 'three-cards',
+                                'imp:p-long-jump', 'imp:p-long-2jump', 'imp:n-long-jump-first'], free=True)
     shorthand = ch.choose('shorthand', [False, True], free=True)
     st = St('c17 importances')
     st.cells = ['%d 0 %d -%d' % (10 + i, i + 1, i + 2) for i in range(ncells)]
@@ -264,6 +265,12 @@ def b_importance(ch):
         p = p + ['1']
     elif fault == 'imp:n-short-vs-p':
         n = n[:-1]
+    elif fault == 'imp:p-long-jump':
+        p = ['1', 'j', '0', '0', '1']          # one entry too many, one of them a jump
+    elif fault == 'imp:p-long-2jump':
+        p = ['1', '2j', '0', '0', '1']
+    elif fault == 'imp:n-long-jump-first':
+        n = ['j'] + n
     if shorthand:
         n = ['1', 'r'] + n[2:]
     st.data = ['imp:n ' + ' '.join(n), 'imp:p ' + ' '.join(p)]
